@@ -14,6 +14,7 @@ package main
 
 import (
 	"bytes"
+	"crypto/sha256"
 	"encoding/json"
 	"fmt"
 	"os"
@@ -48,7 +49,6 @@ type sys struct {
 var (
 	onceMu    sync.Mutex
 	onceOwner = map[string]string{}
-	onceFull  = map[string]bool{}
 )
 
 func once(set, key, hist string) bool {
@@ -359,13 +359,9 @@ func (s *sys) oracle(fullSubst *int32Budget) string {
 					return f
 				}
 			}
-			onceMu.Lock()
-			all, decided := onceFull[ck]
-			if !decided {
-				all = fullSubst.take()
-				onceFull[ck] = all
-			}
-			onceMu.Unlock()
+			// all 255 substitutions per position for a deterministic subset of the proofs (chosen by
+			// a hash of the proof bytes, so it does not depend on the order of visiting), 5 otherwise
+			all := fullSubst.n >= 1<<20 || int(sha256.Sum256(proof)[0]) < fullSubst.n
 			for pos := 0; pos < len(proof); pos++ {
 				subs := []byte{0x00, 0xff, proof[pos] ^ 0x01, proof[pos] ^ 0x80, proof[pos] + 1}
 				if all {
@@ -555,7 +551,7 @@ func main() {
 	r.QuietStderr()
 	debug.SetGCPercent(400)
 	r.DistinctSet = "outcomes"
-	r.Rule = "states = all trees reached by BFS over histories of single writes (+ some 2-write batches) with values v1/v2 over a colliding key alphabet on the real mavl Store under plain / prefix / prune configurations (dedup on roots+raw database). Per state: honest proof of every present key at every committed root must verify; at the newest root every listed single-field change of claim and proof, every proper prefix and single-byte substitutions of the proof bytes (all 255 values for the first N distinct proofs, 5 values per position beyond); plus all byte strings up to the tier's length against true and false claims on 1- and 3-leaf trees. A verification counts as one evaluation. Acceptance is legitimate only for a true claim with a decodable proof whose hashed path (height,size,side,last 32 sibling-hash bytes per node) equals the honest one. distinct = (mutation class, accepted-equivalent/rejected) classes observed"
+	r.Rule = "states = all trees reached by BFS over histories of single writes (+ some 2-write batches) with values v1/v2 over a colliding key alphabet on the real mavl Store under plain / prefix / prune configurations (dedup on roots+raw database). Per state: honest proof of every present key at every committed root must verify; at the newest root every listed single-field change of claim and proof, every proper prefix and single-byte substitutions of the proof bytes (all 255 values for a hash-selected 1/40 of the distinct proofs in quick and for all in thorough, 5 values per position otherwise); plus all byte strings up to the tier's length against true and false claims on 1- and 3-leaf trees. A verification counts as one evaluation. Acceptance is legitimate only for a true claim with a decodable proof whose hashed path (height,size,side,last 32 sibling-hash bytes per node) equals the honest one. distinct = (mutation class, accepted-equivalent/rejected) classes observed"
 	r.Assume = []string{"sha256 collisions do not occur", "changes confined to bytes that are not hashed (height prefix of a sibling hash, junk on the unused side of an inner node, non-canonical protobuf encodings) may legitimately still verify for the true claim; they must not crash and must never verify a false claim", "values are the non-empty strings v1/v2"}
 
 	k5 := []string{"", "a", "ab", "a\xff", "b"}
@@ -566,7 +562,7 @@ func main() {
 		{"prefix", mvx.Cfg{Name: "prefix", Prefix: true}, k5, r.Pick(3, 4)},
 		{"prune", prune, k4, r.Pick(3, 4)},
 	}
-	budget := &int32Budget{n: r.Pick(40, 4000)}
+	budget := &int32Budget{n: r.Pick(6, 1<<20)} // quick: proofs whose hash starts with a byte < 6 (about 1 in 40); thorough: all
 
 	if raw, ok := r.Replaying(); ok {
 		var c struct {
